@@ -21,6 +21,7 @@ type EvalCtx struct {
 	ex    *Exec
 	st    *State
 	old   *State
+	atCall *State // state just before the call an `after` assertion is attached to
 	env   map[string]CV
 	depth int
 	qn    int
@@ -649,6 +650,15 @@ func (c *EvalCtx) call(e *Expr) CV {
 	case "rangeKey":
 		a := args()
 		return CV{T: "(rangeKey " + a[0].T + " " + a[1].T + ")", Sort: "Str", Type: types.Typ[types.String]}
+	case "atcall":
+		// atcall(e): e evaluated in the state just before the call (only in `after` assertions)
+		if c.atCall == nil {
+			c.fail("atcall() is only available in after-call assertions")
+		}
+		if len(e.Args) != 1 {
+			c.fail("atcall needs one argument")
+		}
+		return c.with(c.atCall).eval(e.Args[0])
 	case "byteAt":
 		a := args()
 		return integer("(byteAt " + a[0].T + " " + a[1].T + ")")
@@ -755,7 +765,21 @@ func (cs *Contracts) declared(name string) (declFun, bool) {
 					d.args = strings.Fields(argText)
 				}
 				ret := strings.TrimSpace(rest[j+1:])
-				if k := strings.IndexAny(ret, " )"); k > 0 {
+				if strings.HasPrefix(ret, "(") {
+					// a compound sort such as (Array Int Val): the balanced prefix
+					depth := 0
+					for k := 0; k < len(ret); k++ {
+						if ret[k] == '(' {
+							depth++
+						} else if ret[k] == ')' {
+							depth--
+							if depth == 0 {
+								ret = ret[:k+1]
+								break
+							}
+						}
+					}
+				} else if k := strings.IndexAny(ret, " )"); k > 0 {
 					ret = ret[:k]
 				}
 				d.ret = ret
